@@ -1601,12 +1601,16 @@ def run_env(case):
                             what, len(m.group(1)), len(ref.encode(enc_out))))
                     labels.append('stdout-complete' if _encodable(ref, 'ascii') else 'stdout-complete-non-ascii')
                 else:
-                    # the encoding of the standard output is the user's choice: a text that it cannot represent may be refused
-                    if not err:
-                        raise Violation("{}: no error although the text cannot be encoded in {}".format(what, enc_out))
-                    if err[0] != 'UnicodeEncodeError':
+                    # the encoding of the standard output is the user's choice: a text that it cannot represent is either
+                    # refused (UnicodeEncodeError) or written completely with the offending characters replaced
+                    if err and err[0] != 'UnicodeEncodeError':
                         raise Violation("{}: {} {}".format(what, err[0], err[1]))
+                    if not err and m.group(1) not in [ref.encode(enc_out, h) for h in ('replace', 'backslashreplace', 'xmlcharrefreplace', 'namereplace')]:
+                        raise Violation("{}: the text cannot be encoded in {}; there was no UnicodeEncodeError, and the {} bytes on the "
+                                        "standard output are not the text with the offending characters replaced either".format(
+                                            what, enc_out, len(m.group(1))))
                     labels.append('stdout-cannot-encode')
+                    labels.append('stdout-cannot-encode-' + ('refused' if err else 'replaced'))
                 continue
             path = name if os.path.isabs(name) else os.path.join(root, name)
             if err:
